@@ -363,6 +363,16 @@ int main(int argc, char** argv) {
       if (k->getLowerBound() != want.lb || k->getUpperBound() != want.ub || k->strictLowerBound() == want.il || k->strictUpperBound() == want.iu)
         c.fail("description|parsed-interval-differs", "\"" + desc + "\" parsed as " + k->getDescription() + " expected " + want.s());
       if (idx % 41 == 0) c.sample("\"" + desc + "\" -> " + k->getDescription());
+      // the same description read into objects that already denote another interval: the result is the interval of the description, whatever was there
+      static const RI PRE[4] = {{0, 1, true, true}, {3, 4, false, false}, {-INF, INF, true, true}, {-7, INF, true, false}};
+      for (const RI& pre : PRE) {
+        IntervalConstraint e(pre.lb, pre.ub, pre.il, pre.iu);
+        c.site("IntervalConstraint::readDescription");
+        std::string g2 = vfh::outcome([&] { std::string s = desc; e.readDescription(s); });
+        if (g2 != "ok") { c.fail("description|valid-syntax-rejected", "readDescription(\"" + desc + "\") on " + pre.s() + ": " + g2); continue; }
+        if (e.getLowerBound() != want.lb || e.getUpperBound() != want.ub || e.strictLowerBound() == want.il || e.strictUpperBound() == want.iu)
+          c.fail("description|re-read-interval-differs", "readDescription(\"" + desc + "\") on an object holding " + pre.s() + " gives " + e.getDescription() + " expected " + want.s());
+      }
     });
   }
 
